@@ -70,6 +70,16 @@ def mon_C01(sc, trace, probes, info):
                 out.append(('await %r started at %r can never hold but completed at %r' % (w, t0, t1), None))
             elif exp != t1:
                 out.append(('await %r started at %r resumed at %r, expected %r' % (w, t0, t1, exp), None))
+    # a run that ended at quiescence cannot leave an activity parked in a timed wait whose date can be reached
+    env = info.get('env')
+    if env is not None and (info.get('final') or [None])[0] == 90 and sc.get('till') is None:
+        for pid, (w, actor) in sorted(getattr(env, 'waiting', {}).items()):
+            if pid in starts:
+                w, t0 = starts[pid][2], starts[pid][3]
+                exp = expected_resume(w, t0)
+                if exp not in ('n/a', None):
+                    out.append(('await %r started at %r by %r never resumed although the run went on to quiescence; '
+                                'expected at %r' % (w, t0, actor, exp), None))
     dos = {p[2]: p for p in by(probes, 'do')}
     for p in by(probes, 'task_start'):
         d = dos.get(p[1])
@@ -324,6 +334,9 @@ def mon_C07(sc, trace, probes, info):
     true_at = {}
     for p in by(probes, 'until_true'):
         true_at.setdefault(p[1], p[2])
+    once = {}
+    for p in by(probes, 'scope_enter'):
+        once[p[1]] = once.get(p[1], 0) + 1
     for p in by(probes, 'scope_exit'):
         _, name, t1, exc, body, _ = p
         if name not in enters:
@@ -343,6 +356,17 @@ def mon_C07(sc, trace, probes, info):
             # interrupted by its own notification at another time than the trigger time
             if not (trig is not None and t1 > trig):
                 out.append(('until %r was interrupted at %r but its notification fires at %r' % (name, t1, trig), None))
+        if isinstance(body, CancelScope) and body.subject is info['env'].scope_objs.get(name) \
+                and body.token != ('Scope._cancel_self',) and exc is None and trig is None and once.get(name) == 1:
+            # interrupted by its own notification although the condition never held: only decided for a single flag or
+            # tracked comparison whose variables change at most once per activation (then sampling the condition at
+            # activation boundaries misses nothing)
+            atom = w[1] if w[0] == 'not' else w
+            fl = {atom[1]} if atom[0] == 'flag' else set()
+            tr = {atom[1]} if atom[0] == 'cmp' else ({atom[1], atom[3]} if atom[0] == 'cmp2' else set())
+            if (fl or tr) and (w[0] != 'not' or atom[0] == 'flag') and not _transient(probes, fl, tr):
+                out.append(('until %r (%r) entered at %r was ended by its own notification at %r although the condition '
+                            'never held' % (name, w, t0, t1), None))
     # a block whose notification fired but which was never left at all (its owner sleeps forever)
     exited = {p[1] for p in by(probes, 'scope_exit')}
     final = info.get('final') or [None]
@@ -363,6 +387,19 @@ def mon_C07(sc, trace, probes, info):
                         % (name, w, t0, trig), finding))
     out.extend(mon_till(sc, trace, probes, info))
     return out
+
+
+def _transient(probes, flags, tracked):
+    """may a condition over these variables have held only INSIDE an activation (two or more changes in one activation)?"""
+    n = 0
+    for p in probes:
+        if p[0] == 'act':
+            n = 0
+        elif (p[0] == 'set_flag' and p[1] in flags) or (p[0] == 'set_tracked' and p[1] in tracked):
+            n += 1
+            if n >= 2:
+                return True
+    return False
 
 
 def mon_till(sc, trace, probes, info):
@@ -476,6 +513,34 @@ def mon_C02(sc, trace, probes, info):
             expect = [a for a in rq if a in served]
             if served != expect:
                 out.append(('lock %r was entered in the order %r but requested in the order %r' % (l, served, expect), None))
+    # children that one activity plans, within one activation, for the same LATER time (`after=d` / `at=now+d` in any
+    # mix) start in the order of the do() calls: both are made runnable for that time in that order
+    run_idx = 0
+    planned = []          # (activation index, actor, start time, task name, probe index)
+    starts = {}
+    cnt = {}
+    for i, p in enumerate(probes):
+        if p[0] == 'act':
+            run_idx += 1
+        elif p[0] == 'do':
+            _, scname, tname, start, vol, now, actor = p
+            cnt[tname] = cnt.get(tname, 0) + 1
+            T = None
+            if start[0] == 'after':
+                T = now + tv(start[1])
+            elif start[0] == 'at':
+                T = tv(start[1])
+            if T is not None and T > now and T != float('inf'):
+                planned.append((run_idx, actor, T, tname, i))
+        elif p[0] == 'task_start':
+            starts.setdefault(p[1], i)
+    for a in range(len(planned)):
+        for b in range(a + 1, len(planned)):
+            x, y = planned[a], planned[b]
+            if x[:3] == y[:3] and cnt[x[3]] == 1 and cnt[y[3]] == 1 and x[3] in starts and y[3] in starts \
+                    and starts[x[3]] > starts[y[3]]:
+                out.append(('tasks %r and %r were planned by %r for time %r in that order but started in the opposite order'
+                            % (x[3], y[3], x[1], x[2]), None))
     last = None
     for p in by(probes, 'act'):
         t, seq = p[1], p[5]
